@@ -11,8 +11,8 @@ import (
 
 func init() {
 	register(&PropMeta{
-		ID:    "C13",
-		Level: "other",
+		ID:          "C13",
+		Level:       "other",
 		Explanation: "Decides, on every CFG path, that a backend failure leaves the hand untouched and is observed: (R1) in each hand method no store to the hand state, channel send or state update lies on any path to an error exit, and error exits return the stored state with the error; (R2) every call of a GameBackend method, and every self-driven group step (ReadyForAll/PayAnte/PayBlinds/Next issued by the hand itself), has its error tested and either returned or routed to the error callback; (R3) the engine registers an error handler before starting the hand and that handler, the open-game callback and the state-updated handler all reach the table error event; (R4) engine-side effects only on success (C10.R3 re-evaluated); (R5) the native backend works on a clone of its argument and returns a clone or nil. NOT decided: atomicity inside remote backends; that a retried action behaves identically (follows from R1/R5 only for the native backend).",
 		Rules: map[string]string{
 			"R1": "hand methods are pure on error: no hand-state store / send / state update on any path to an error exit; error exits return (stored state, err)",
@@ -284,6 +284,29 @@ func checkC13Wiring(c *Ctx) {
 		hs := closureOperands(regCall.Call.Args[0])
 		ok := len(hs) == 1 && reachesErrEvent(hs[0])
 		c.Check(ok, "R3", "error-handler-reaches-table-error-event", p.InstrPos(regCall), "handler reaches onTableErrorUpdated", "the registered hand error handler does not reach the table error event")
+		if ok {
+			// … on EVERY path (a guard that returns early swallows the failure)
+			silent := 0
+			wk := &Walker{P: p, Fn: hs[0], IsEvent: func(in ssa.Instruction) bool {
+				ci, isCall := in.(ssa.CallInstruction)
+				if !isCall {
+					return false
+				}
+				fns, _ := p.CG().Callees(ci)
+				for _, f := range fns {
+					if reachesErrEvent(f) {
+						return true
+					}
+				}
+				return false
+			}, OnExit: func(in ssa.Instruction, st *WState) {
+				if len(st.Events) == 0 {
+					silent++
+				}
+			}}
+			wk.Run()
+			c.Check(silent == 0 && !wk.Aborted, "R3", "error-handler-reports-on-every-path", p.Pos(hs[0].Pos()), "no silent path in the hand error handler", fmt.Sprintf("the hand error handler has %d path(s) that return without reporting through the table error event", silent))
+		}
 	}
 	// the hand forwards its error callback field: game.OnGameErrorUpdated stores its parameter
 	gt := p.singleImpl("", "Game")
